@@ -1012,15 +1012,17 @@ pub fn c16_concurrent(seed: u64) -> Option<Viol> {
     };
     let mut next = 0u64;
     for _ in 0..30 {
-        let _ = st.write(&Op::Append(vec![((1, next), format!("c16c-{}", next))]));
+        // (payloads of one fixed size, so that every stat() snapshot can be checked for internal consistency)
+        let _ = st.write(&Op::Append(vec![((1, next), format!("c16c-{:04}", next))]));
         next += 1;
     }
     let _ = st.sync();
     let panic_msg: std::sync::Mutex<Option<(String, String)>> = std::sync::Mutex::new(None);
+    let torn_msg: std::sync::Mutex<Option<String>> = std::sync::Mutex::new(None);
     let stop = std::sync::atomic::AtomicBool::new(false);
     {
         let rl = st.rl();
-        let (pm, stop) = (&panic_msg, &stop);
+        let (pm, stop, torn) = (&panic_msg, &stop, &torn_msg);
         std::thread::scope(|sc| {
             for t in 0..4u32 {
                 sc.spawn(move || {
@@ -1036,7 +1038,13 @@ pub fn c16_concurrent(seed: u64) -> Option<Viol> {
                             .map(|_| ())
                             .map_err(|p| ("dump_data_iter", p)),
                             _ => store::guarded(|| {
-                                let _ = format!("{}", rl.stat());
+                                let s = rl.stat();
+                                let _ = format!("{}", s);
+                                // every payload is 9 bytes long: count and size of ONE snapshot must agree, whatever
+                                // the drainer thread is doing meanwhile
+                                if s.payload_cache_size != 9 * s.payload_cache_item_count {
+                                    *torn.lock().unwrap() = Some(format!("one stat() snapshot reports {} cached items and {} bytes although every payload has 9 bytes (another thread was draining the cache)", s.payload_cache_item_count, s.payload_cache_size));
+                                }
                             })
                             .map_err(|p| ("stat", p)),
                         };
@@ -1070,6 +1078,9 @@ pub fn c16_concurrent(seed: u64) -> Option<Viol> {
     }
     st.close();
     util::remove_dir(&dir);
+    if let Some(t) = torn_msg.lock().unwrap().take() {
+        return Some(Viol { prop: "C15".into(), sig: "C15:stat_snapshot_torn".into(), text: t, replay: json!({"kind": "c16c", "seed": seed.to_string()}) });
+    }
     let got = panic_msg.lock().unwrap().take();
     got.map(|(what, p)| Viol {
         prop: "C16".into(),
